@@ -1,5 +1,5 @@
 From Coq Require Import List Arith Bool String.
-From Wire Require Import Sets Acyclic Solve Names Front Exec Model Emit Cli CopyAst ModelThms NamesThms Bridge.
+From Wire Require Import Sets Acyclic Solve Names Front Exec Model Emit Cli CopyAst ModelThms NamesThms Bridge ProcessWF.
 Import ListNotations.
 
 (* The property theorems.  This file contains nothing but statements closed by [exact lemma] and the
@@ -11,7 +11,7 @@ Import ListNotations.
    bound concrete provider -- has no cycle, for every root order that lists all keys, whether or not any
    injector reaches the cyclic part (Model.process_set runs it on the map of every set of the closure). *)
 Theorem C07_cycles_detected : forall tyorder pm,
-  incl (keys pm) tyorder -> verify tyorder pm <> [SFuel] ->
+  verify tyorder pm <> [SFuel] ->
   (verify tyorder pm = [] <-> ~ exists u, path (succ_of pm) u u).
 Proof. exact verify_acyclic_iff. Qed.
 Print Assumptions C07_cycles_detected.
@@ -255,7 +255,7 @@ Print Assumptions C16_collision_order_independent.
    dependencies; parameters sit at their types; keys and parameter types pairwise distinct); verify = [] is the
    cycle check's own verdict (Model.process_set only returns maps that passed it). *)
 Theorem C02_wiring : forall tyorder pm root args out,
-  wfb pm args = true -> verify tyorder pm = [] -> incl (keys pm) tyorder ->
+  wfb pm args = true -> verify tyorder pm = [] ->
   forall cs, solve pm root args out = inl cs ->
   exists s i v, cs = map (decorate pm) (calls s) /\
     lookup (index s) out = Some (Slot i) /\
@@ -270,14 +270,14 @@ Proof. exact solve_sim. Qed.
 Print Assumptions C02_machine_refines_visit.
 
 Theorem C06_missing : forall tyorder pm args out,
-  wfb pm args = true -> verify tyorder pm = [] -> incl (keys pm) tyorder ->
+  wfb pm args = true -> verify tyorder pm = [] ->
   forall s usedk, machine2 (core_pm pm) (List.length args) (solve_fuel pm) [out] (init_state args) [] = Some (s, usedk) ->
   (forall t, In t (errs s) <-> reach (core_pm pm) out t /\ core_pm pm t = None) /\ NoDup (errs s).
 Proof. exact solve_missing. Qed.
 Print Assumptions C06_missing.
 
 Theorem C06_rejected_names_missing : forall tyorder pm root args out,
-  wfb pm args = true -> verify tyorder pm = [] -> incl (keys pm) tyorder ->
+  wfb pm args = true -> verify tyorder pm = [] ->
   forall ds, solve pm root args out = inr ds ->
   ds = [DFuel] \/
   (exists l, ds = map DNoProvider l /\ l <> [] /\ NoDup l /\ forall t, In t l <-> reach (core_pm pm) out t /\ core_pm pm t = None) \/
@@ -286,7 +286,7 @@ Proof. exact solve_rejects_missing. Qed.
 Print Assumptions C06_rejected_names_missing.
 
 Theorem C06_accepted_is_complete : forall tyorder pm root args out,
-  wfb pm args = true -> verify tyorder pm = [] -> incl (keys pm) tyorder ->
+  wfb pm args = true -> verify tyorder pm = [] ->
   forall cs, solve pm root args out = inl cs -> forall t, reach (core_pm pm) out t -> core_pm pm t <> None.
 Proof. exact solve_accepts_complete. Qed.
 Print Assumptions C06_accepted_is_complete.
@@ -367,3 +367,46 @@ Theorem C05_conflict_is_reported : forall (A : Type) (ip bp : nat -> A -> A) (a 
   exists es k, build1 ip bp a ms d b = inr es /\ In (SMulti k) es.
 Proof. exact build1_reports. Qed.
 Print Assumptions C05_conflict_is_reported.
+
+(* ------------------------------------------------------------------ C02 / C06 / C07 for every accepted program *)
+(* No certificate, no side condition: whenever processNewSet accepts the build set (process_set = inl pm) ... *)
+Theorem C02_wiring_accepted : forall tyorder root args out pm cs,
+  process_set tyorder args root = inl pm -> solve pm root args out = inl cs ->
+  exists s i v, cs = map (decorate pm) (calls s) /\
+    lookup (index s) out = Some (Slot i) /\
+    nth_error (exec_calls (env0 (List.length args)) (calls s)) i = Some v /\
+    val (core_pm pm) out v.
+Proof. exact accepted_wiring. Qed.
+Print Assumptions C02_wiring_accepted.
+
+Theorem C06_missing_accepted : forall tyorder root args out pm s usedk,
+  process_set tyorder args root = inl pm ->
+  machine2 (core_pm pm) (List.length args) (solve_fuel pm) [out] (init_state args) [] = Some (s, usedk) ->
+  (forall t, In t (errs s) <-> reach (core_pm pm) out t /\ core_pm pm t = None) /\ NoDup (errs s).
+Proof. exact accepted_missing. Qed.
+Print Assumptions C06_missing_accepted.
+
+Theorem C06_rejected_names_missing_accepted : forall tyorder root args out pm ds,
+  process_set tyorder args root = inl pm -> solve pm root args out = inr ds ->
+  ds = [DFuel] \/
+  (exists l, ds = map DNoProvider l /\ l <> [] /\ NoDup l /\ forall t, In t l <-> reach (core_pm pm) out t /\ core_pm pm t = None) \/
+  (forall t, reach (core_pm pm) out t -> core_pm pm t <> None).
+Proof. exact accepted_rejects_missing. Qed.
+Print Assumptions C06_rejected_names_missing_accepted.
+
+Theorem C06_accepted_is_complete_accepted : forall tyorder root args out pm cs,
+  process_set tyorder args root = inl pm -> solve pm root args out = inl cs ->
+  forall t, reach (core_pm pm) out t -> core_pm pm t <> None.
+Proof. exact accepted_complete. Qed.
+Print Assumptions C06_accepted_is_complete_accepted.
+
+(* every provider map processNewSet accepts satisfies the well-formedness checker, and its planner graph is acyclic *)
+Theorem C05_accepted_maps_well_formed : forall tyorder args root pm,
+  process_set tyorder args root = inl pm -> wfb pm args = true.
+Proof. exact process_set_wfb. Qed.
+Print Assumptions C05_accepted_maps_well_formed.
+
+Theorem C07_accepted_sets_acyclic_for_planner : forall tyorder root args pm,
+  process_set tyorder args root = inl pm -> acyclic (core_pm pm).
+Proof. exact accepted_acyclic. Qed.
+Print Assumptions C07_accepted_sets_acyclic_for_planner.
